@@ -230,6 +230,9 @@ pub async fn worker(
 					errors.send(e).await?;
 				}
 			} else {
+				// the watcher holds one registration per path, whatever its mode: forget any stale
+				// entry (e.g. left by a failed unwatch before a mode change) so it's not unwatched later
+				pathset.retain(|p| p.path != path.path);
 				pathset.insert(path);
 			}
 		}
